@@ -77,6 +77,7 @@ fn run_inner(case: &str, args: &Value) -> Option<Outcome> {
         "c15_values" => Some(strings::value_roundtrip(args)),
         "c17_escape" => Some(strings::escape(args)),
         "c17_input_value" | "c17_sdl" => Some(c17_sdl::sdl(args)),
+        "c17_schema" => Some(c17_sdl::schema_case(args)),
         _ => None,
     }
 }
@@ -120,6 +121,7 @@ pub fn search(case: &str, seed: u64, open: &[String]) -> Option<SearchResult> {
         "c15_quoted" | "c17_escape" => Box::new(strings::string_inputs(seed)),
         "c15_values" => Box::new(strings::value_inputs(seed)),
         "c17_input_value" | "c17_sdl" => Box::new(c17_sdl::inputs(seed, open)),
+        "c17_schema" => Box::new(c17_sdl::schema_inputs(seed, open)),
         _ => return None,
     };
     let mut tried = 0u64;
